@@ -27,10 +27,12 @@ type Req struct {
 type RPlan struct {
 	Seed uint64
 	Reqs []Req
+	// what the relay itself believes about the target (it is asked all the same, and answers by the same rules)
+	TargetKnown string `json:",omitempty"` // "" unknown | dead | left (a target the relay holds alive would also be probed by the relay itself, which this test does not model)
 }
 
 func genRPlan(t *rapid.T) RPlan {
-	p := RPlan{Seed: rapid.Uint64Range(1, 1<<40).Draw(t, "seed")}
+	p := RPlan{Seed: rapid.Uint64Range(1, 1<<40).Draw(t, "seed"), TargetKnown: rapid.SampledFrom([]string{"", "", "dead", "left"}).Draw(t, "known")}
 	at := 0
 	p.Reqs = rapid.SliceOfN(rapid.Custom(func(t *rapid.T) Req {
 		at += rapid.SampledFrom([]int{1, 2, 50, 299, 301, 700}).Draw(t, "gap")
@@ -110,6 +112,20 @@ func runR(pl RPlan) (res vfx.Result) {
 		}
 		return true
 	}
+	if pl.TargetKnown != "" {
+		// (a departed or failed member is not probed by the relay itself and nothing is gossiped here)
+		parts := [][]byte{puppet.Claim{Kind: "alive", Node: "tgt", Inc: 1, Addr: tgt.IPBytes(), Port: 7946, Vsn: vsn}.Leaf()}
+		switch pl.TargetKnown {
+		case "suspect":
+			parts = append(parts, puppet.Claim{Kind: "suspect", Node: "tgt", Inc: 1, From: "req"}.Leaf())
+		case "dead":
+			parts = append(parts, puppet.Claim{Kind: "dead", Node: "tgt", Inc: 1, From: "req"}.Leaf())
+		case "left":
+			parts = append(parts, puppet.Claim{Kind: "dead", Node: "tgt", Inc: 1, From: "tgt"}.Leaf())
+		}
+		p.Inject(req.Addr(), parts, puppet.Carrier{Kind: "compound"})
+		labels["target-known:"+pl.TargetKnown] = true
+	}
 	start := p.Net.Now()
 	type sent struct {
 		at time.Duration
@@ -177,34 +193,6 @@ func runR(pl RPlan) (res vfx.Result) {
 	for i, s := range sentReqs {
 		r := s.r
 		recv := s.at + 200*time.Microsecond // the node received the request
-		var acks, nacks []rep
-		for j, rp := range reps {
-			if used[j] || rp.seq != r.Seq {
-				continue
-			}
-			// replies for this request lie in (recv, recv + ProbeTimeout + 5ms]
-			if rp.at < recv || rp.at > recv+T300+5*time.Millisecond {
-				continue
-			}
-			// a later identical request may overlap: take the reply that fits this request's expected instant
-			wantAt := recv + T300
-			if r.Answer == "intime" || r.Answer == "intime-dup" {
-				wantAt = recv + 100*time.Millisecond + 400*time.Microsecond
-			}
-			if r.Answer == "prequeued" && !rp.nack {
-				wantAt = recv
-			}
-			if d := rp.at - wantAt; d < -300*time.Microsecond || d > 300*time.Microsecond {
-				continue
-			}
-			if rp.nack {
-				nacks = append(nacks, rp)
-			} else {
-				acks = append(acks, rp)
-			}
-			used[j] = true
-			break
-		}
 		intime := r.Answer == "intime" || r.Answer == "intime-dup"
 		if r.Answer == "prequeued" {
 			// judged as "answered in time" only when the number was predicted correctly (the ping the target saw carries it)
@@ -221,6 +209,39 @@ func runR(pl RPlan) (res vfx.Result) {
 				labels["prequeued-miss"] = true
 				// an acknowledgement for an unknown number has no effect: the request is simply unanswered
 			}
+		}
+		var acks, nacks []rep
+		for j, rp := range reps {
+			if used[j] || rp.seq != r.Seq {
+				continue
+			}
+			// requests may repeat the requester's number and their windows may overlap: an answered request is matched
+			// with an ack, an unanswered one with a nack; whatever is left over is reported as unexpected below
+			if rp.nack == intime {
+				continue
+			}
+			// replies for this request lie in (recv, recv + ProbeTimeout + 5ms]
+			if rp.at < recv || rp.at > recv+T300+5*time.Millisecond {
+				continue
+			}
+			// a later identical request may overlap: take the reply that fits this request's expected instant
+			wantAt := recv + T300
+			if r.Answer == "intime" || r.Answer == "intime-dup" {
+				wantAt = recv + 100*time.Millisecond + 400*time.Microsecond
+			}
+			if r.Answer == "prequeued" && intime {
+				wantAt = recv
+			}
+			if d := rp.at - wantAt; d < -300*time.Microsecond || d > 300*time.Microsecond {
+				continue
+			}
+			if rp.nack {
+				nacks = append(nacks, rp)
+			} else {
+				acks = append(acks, rp)
+			}
+			used[j] = true
+			break
 		}
 		lab := fmt.Sprintf("%s|nack=%v", r.Answer, r.Nack)
 		labels[lab] = true
